@@ -649,23 +649,34 @@ class PortCollection (object):
   def __len__ (self):
     return len(self.keys())
 
+  def _visible (self):
+    """
+    Iterates over the ports which are currently part of this collection
+
+    That's our own ports, plus whichever ports of the parent collection we
+    neither mask nor have our own (newer) version of.
+    """
+    for p in self._ports:
+      yield p
+    if self._chain:
+      hidden = self._masks.union(p.port_no for p in self._ports)
+      for p in self._chain._visible():
+        if p.port_no not in hidden:
+          yield p
+
   def __getitem__ (self, index):
     if isinstance(index, int):
-      for p in self._ports:
+      for p in self._visible():
         if p.port_no == index:
           return p
     elif isinstance(index, EthAddr):
-      for p in self._ports:
+      for p in self._visible():
         if p.hw_addr == index:
           return p
     else:
-      for p in self._ports:
+      for p in self._visible():
         if p.name == index:
           return p
-    if self._chain:
-      p = self._chain[index]
-      if p.port_no not in self._masks:
-        return p
 
     raise IndexError("No key %s" % (index,))
 
